@@ -175,8 +175,12 @@ fn plan16(seed: u64, run: u64, tier: Tier) -> Plan16 {
         o.comments = rng.chance(1, 2);
         o.crlf = rng.chance(1, 8);
         o.unicode = rng.chance(1, 4);
-        let kind = rng.weighted(&[8, 3, 2, 2, 3, 1, 1]);
+        let kind = rng.weighted(&[8, 3, 2, 2, 3, 1, 1, 2]);
         let (kind_s, mut text) = match kind {
+            7 => {
+                let n = rng.range(1, 4);
+                ("corpus", jsgen::gen_corpus(&mut rng, n))
+            }
             6 => {
                 let n = *rng.pick(jsgen::BOUNDARY);
                 ("wide", jsgen::gen_wide(&mut rng, n))
